@@ -1143,3 +1143,40 @@ Proof.
   assert (Ep : t_parent (fst sf) = t_parent (fst fr)) by (unfold abs in Ea; congruence).
   unfold obs_views. rewrite Ep, Et. reflexivity.
 Qed.
+
+(* ------------------------------------------------------------------------------ *)
+(* tsk_tree_copy: a copy is the original, and whatever is done to it afterwards it stays
+   canonical                                                                        *)
+
+Lemma run_from_app_m m ts ops1 ops2 st st1 o1 :
+  run_from m ts st ops1 = Ok (st1, o1) ->
+  run_from m ts st (ops1 ++ ops2) = (do '(st2, o2) <- run_from m ts st1 ops2; Ok (st2, o1 ++ o2)).
+Proof.
+  revert st st1 o1; induction ops1 as [|o ops IH]; intros st st1 o1 H.
+  - simpl in H. injection H as <- <-. simpl. destruct (run_from m ts st ops2) as [[s o]| | |]; reflexivity.
+  - cbn [run_from app] in *. destruct (py_step m ts st o) as [[s r]| | |]; cbn [bind] in *; try discriminate.
+    destruct (run_from m ts s ops) as [[s' rs]| | |] eqn:E; cbn [bind] in *; try discriminate.
+    injection H as <- <-. rewrite (IH _ _ _ E).
+    destruct (run_from m ts s' ops2) as [[s2 o2]| | |]; reflexivity.
+Qed.
+
+Lemma copy_canonical_proof ts ops1 ops2 thr : valid_tsb ts = true ->
+  exists s1 o1 s2 o2 fr o3,
+    (* the state reached by ops1 ... *)
+    run full ts ops1 = Ok (s1, o1) /\
+    (* ... copy(): the new current tree IS the original (every field, incl. the cursors), the
+       original becomes the other tree, None is returned *)
+    run full ts (ops1 ++ [OpCopy]) = Ok ((fst s1, fst s1), o1 ++ [RET_NONE]) /\
+    (* ... and after ANY further ops the copy is the fresh tree of its index *)
+    run full ts (ops1 ++ OpCopy :: ops2) = Ok (s2, o2) /\
+    run full ts (fresh_ops (t_index (fst s2))) = Ok (fr, o3) /\
+    abs (fst s2) = abs (fst fr) /\ t_tracked (fst s2) = t_tracked (fst fr) /\
+    obs_views ts thr (fst s2) = obs_views ts thr (fst fr).
+Proof.
+  intros Hv.
+  destruct (nav_canonical_full_proof ts ops1 thr Hv) as (s1 & o1 & _ & _ & R1 & _).
+  destruct (nav_canonical_full_proof ts (ops1 ++ OpCopy :: ops2) thr Hv) as (s2 & o2 & fr & o3 & R2 & R3 & E1 & E2 & E3).
+  exists s1, o1, s2, o2, fr, o3. split; [exact R1|]. split; [|auto].
+  unfold run in *. rewrite (run_from_app_m full ts ops1 [OpCopy] _ s1 o1 R1).
+  destruct s1 as [c o]. cbn [run_from py_step py_step_fuel bind fst]. rewrite tree_copy_id. reflexivity.
+Qed.
